@@ -42,7 +42,7 @@ def sv_setup(ctx):
             raise Unsupported("fsspec path")
         if ctx_.choose(2, f"Path({mode})-raises") == 1:
             raise PyRaise(ExcVal("PathError", origin="Path()"))
-        given = lift(args[0])
+        given = ctx_.fresh("pathstr", S) if isinstance(args[0], Rec) else lift(args[0])
         absolute = fs_resolve(given)  # the same file under its absolute name (cwd is stable during the call: A3)
         ctx_.assume(fs_isfile(absolute) == fs_isfile(given))
         p = Rec("Path", attrs={"absolute": absolute, "mode": mode}, methods={"__str__": lambda c, s_, a, k: Rec("str", methods={"lower": lambda c2, s2, a2, k2: s2, "endswith": lambda c2, s2, a2, k2: c2.fresh("is_json", B)})})
